@@ -160,6 +160,8 @@ def lib_ident(rec):
     cn = type(rec).__name__
     if cn == "DNSAddress":
         rd = bytes(rec.address)
+        if rec.scope_id is not None and t == wire.T_AAAA:
+            rd = (rd, rec.scope_id)
     elif cn == "DNSPointer":
         rd = rec.alias.lower()
     elif cn == "DNSText":
@@ -203,7 +205,7 @@ class HostModel:
         self.guards = {}
         self.suppressed = 0
 
-    def on_rx(self, t_s, sock_label, data):
+    def on_rx(self, t_s, sock_label, data, v6sock=False):
         """Returns (msg, effect): msg is the strictly decoded accepted datagram or None; effect for responses."""
         t_ms = t_s * 1000.0
         self.cache.advance(t_s)
@@ -218,5 +220,9 @@ class HostModel:
         if msg is None:
             return None, None
         if msg.is_response:
+            if v6sock:
+                for r in msg.records():
+                    if r.type == wire.T_AAAA:
+                        r.scope = 0  # datagrams read from an AF_INET6 socket carry the receiving scope id
             return msg, self.cache.apply_response(t_ms, msg.records())
         return msg, None
